@@ -482,22 +482,44 @@ func checkPresencePredicate(r *Reporter, p *Prog, pkg string, info *types.Info, 
 		// the method with its unexported helpers in place: the decision on the looked-up bytes may
 		// live in a helper the bytes are handed to
 		f := newFuncCFG(p, info, fd.Body, fkey)
-		ast.Inspect(fd.Body, func(nd ast.Node) bool {
-			as, ok := nd.(*ast.AssignStmt)
-			if !ok || len(as.Rhs) != 1 || len(as.Lhs) != 2 {
-				return true
+		// the lookups this method performs itself or through a lookup helper spliced into it; a lookup in
+		// a helper is judged in the callers of the helper (there the decision is made), so a helper that
+		// is spliced wherever it is called is not judged on its own
+		if !fd.Name.IsExported() && splicedEverywhere(p, pkg, fd) {
+			continue
+		}
+		var getSites []*ast.AssignStmt
+		for _, gb := range f.G.Blocks {
+			if !gb.Live {
+				continue
 			}
-			cl, ok := ast.Unparen(as.Rhs[0]).(*ast.CallExpr)
-			if !ok || !strings.HasSuffix(exprKey(cl.Fun), ".tree.Get") {
-				return true
+			for _, gn := range gb.Nodes {
+				if as, ok := gn.(*ast.AssignStmt); ok && len(as.Rhs) == 1 && len(as.Lhs) == 2 {
+					if cl, ok := ast.Unparen(as.Rhs[0]).(*ast.CallExpr); ok && strings.HasSuffix(rawKey(cl.Fun), ".tree.Get") {
+						dup := false
+						for _, g := range getSites {
+							if g == as {
+								dup = true
+							}
+						}
+						if !dup {
+							getSites = append(getSites, as)
+						}
+					}
+				}
 			}
+		}
+		for _, nd := range getSites {
+			as := nd
+			cl := ast.Unparen(as.Rhs[0]).(*ast.CallExpr)
 			v := objOfIdent(info, as.Lhs[0])
 			if v == nil {
-				return true
+				continue
 			}
 			nGets++
 			key := "presence test on the result of tree.Get in " + fkey
 			nilTests, lenTests := 0, []string{}
+			var lossy []string
 			seenTest := map[ast.Node]bool{}
 			for _, b := range f.G.Blocks {
 				if !b.Live {
@@ -510,8 +532,51 @@ func checkPresencePredicate(r *Reporter, p *Prog, pkg string, info *types.Info, 
 						if !ok || seenTest[be] {
 							return true
 						}
+						// the looked-up bytes themselves, or a copy that is nil exactly when they are
+						// (bytes.Clone / slices.Clone keep nil apart from empty; append([]byte(nil), b...)
+						// does not, and is deliberately not on this list)
+						sameNil := func(e ast.Expr) bool {
+							if f.IsVar(e, pt, v) {
+								return true
+							}
+							if t := info.TypeOf(e); t == nil || !types.Identical(t.Underlying(), v.Type().Underlying()) {
+								return false // not the bytes (an error, a decoded value, ...)
+							}
+							os := f.Origins(e, pt)
+							n := 0
+							for _, o := range os {
+								if isNil(info, o.E) {
+									continue
+								}
+								cl, isCall := ast.Unparen(o.E).(*ast.CallExpr)
+								if !isCall || len(cl.Args) != 1 || (rawKey(cl.Fun) != "bytes.Clone" && rawKey(cl.Fun) != "slices.Clone") {
+									if oid, isId := ast.Unparen(o.E).(*ast.Ident); isId && (objOfIdent(info, oid) == v || f.IsVar(oid, o.At, v)) {
+										n++
+										continue
+									}
+									// derived from the looked-up bytes some other way (append([]byte(nil), b...),
+									// a re-slice, ...): nil-ness is not preserved for the empty value
+									derived := false
+									ast.Inspect(o.E, func(dn ast.Node) bool {
+										if did, isId := dn.(*ast.Ident); isId && (objOfIdent(info, did) == v || f.IsVar(did, o.At, v)) {
+											derived = true
+										}
+										return !derived
+									})
+									if derived {
+										lossy = append(lossy, p.posStr(o.E.Pos())+" "+exprKey(o.E))
+									}
+									return false
+								}
+								if !(objOfIdent(info, cl.Args[0]) == v || f.IsVar(cl.Args[0], o.At, v)) {
+									return false
+								}
+								n++
+							}
+							return n > 0
+						}
 						for _, side := range [][2]ast.Expr{{be.X, be.Y}, {be.Y, be.X}} {
-							if f.IsVar(side[0], pt, v) && isNil(info, side[1]) && (be.Op == token.EQL || be.Op == token.NEQ) {
+							if isNil(info, side[1]) && (be.Op == token.EQL || be.Op == token.NEQ) && sameNil(side[0]) {
 								nilTests++
 								seenTest[be] = true
 							}
@@ -527,6 +592,8 @@ func checkPresencePredicate(r *Reporter, p *Prog, pkg string, info *types.Info, 
 				}
 			}
 			switch {
+			case len(lossy) > 0:
+				r.Fail("presence/one-predicate", key, p.posStr(cl.Pos()), "presence is decided by a nil test on a copy of the looked-up bytes that does not keep nil apart from empty ("+lossy[0]+"): a key holding an empty value is reported absent here but counted, streamed and deletable everywhere else", lossy...)
 			case len(lenTests) > 0:
 				r.Fail("presence/one-predicate", key, p.posStr(cl.Pos()), "presence is decided by the length of the stored value ("+lenTests[0]+") instead of value != nil as in has(): a key holding an empty value is reported absent here but counted, streamed and deletable everywhere else", lenTests...)
 			case nilTests == 0:
@@ -535,8 +602,7 @@ func checkPresencePredicate(r *Reporter, p *Prog, pkg string, info *types.Info, 
 				nNil++
 				r.Pass("presence/one-predicate", key, p.posStr(cl.Pos()), "absence decided by == nil / != nil, the predicate of has()")
 			}
-			return true
-		})
+		}
 	}
 	if nGets < 2 || nNil < 2 {
 		r.Fail("presence/one-predicate", pkg+".authenticatedMap", "-", fmt.Sprintf("expected tree.Get with a nil test in has() and Get(), found %d sites, %d nil-tested", nGets, nNil))
